@@ -19,7 +19,10 @@ def zoo():
          Literal("2020-01-01T00:00:00", datatype=XSD.dateTime), Literal("2020-01-01T00:00:00Z", datatype=XSD.dateTime),
          Literal("2020-01-01", datatype=XSD.date), Literal("P1D", datatype=XSD.duration),
          Literal("x", datatype=URIRef("urn:custom")), Literal("a\"b\\c\nd\te"), Literal("\r"), Literal("café \U0001F600"),
-         Literal("01", datatype=XSD.integer, normalize=False), Literal("a'b"), Literal("-1", datatype=XSD.nonNegativeInteger)]
+         Literal("01", datatype=XSD.integer, normalize=False), Literal("a'b"), Literal("-1", datatype=XSD.nonNegativeInteger),
+         # multi-line strings (triple-quoted in n3()), ending in / containing quotes and backslashes
+         Literal('She said:\n"hello"'), Literal('a\n"'), Literal('a\n""'), Literal('x\n"""y'), Literal('l\n\\"'), Literal('\n'),
+         Literal('two\nlines', lang="en"), Literal('q"\n\r\tz', datatype=XSD.string)]
     return Z
 
 
